@@ -746,5 +746,345 @@ theorem mass_eq_compMass_of_tables (hI : ionTablesOk = true) (env : Env) (a : An
     rw [f6, f4, hz] at hm
     linarith
 
+
+/-! ### global static rules: condensing is value-preserving -/
+
+theorem findAll_go_length (pat : List Char) (fuel : Nat) (s : List Char) (i : Nat) :
+    (findAll.go pat s i fuel).length = countSub.go pat s fuel := by
+  induction fuel generalizing s i with
+  | zero => rfl
+  | succ fuel ih =>
+    cases s with
+    | nil => rfl
+    | cons c r =>
+      unfold findAll.go countSub.go
+      by_cases hp : pat.isPrefixOf (c :: r) = true
+      · simp only [hp, if_true, List.length_cons, ih]; omega
+      · simp only [hp, Bool.false_eq_true, if_false, ih]
+
+theorem findAll_length (pat s : List Char) : (findAll pat s).length = countSub pat s := by
+  unfold findAll countSub
+  by_cases hp : pat.isEmpty = true
+  · simp [hp]
+  · simp only [hp, Bool.false_eq_true, if_false]; exact findAll_go_length pat _ s 0
+
+/-- value of the residue modifications -/
+def intValue (env : Env) (mono : Bool) (d : Option (List (Int × List Mod))) : Rat := modsValue env mono (intMods d)
+
+theorem intMods_addAt (d : List (Int × List Mod)) (i : Int) (l : List Mod) (env : Env) (mono : Bool) :
+    modsValue env mono ((addAt d i l).flatMap (·.2)) = modsValue env mono (d.flatMap (·.2)) + modsValue env mono l := by
+  induction d with
+  | nil => simp [addAt, modsValue, sumR_nil]
+  | cons p d ih =>
+    obtain ⟨k, v⟩ := p
+    unfold addAt
+    by_cases hk : k = i
+    · simp only [hk, if_true, List.flatMap_cons, modsValue_append]; ring
+    · simp only [hk, if_false, List.flatMap_cons, modsValue_append, ih]; ring
+
+theorem intValue_addInternal (env : Env) (mono : Bool) (d : Option (List (Int × List Mod))) (i : Int) (l : List Mod) :
+    intValue env mono (addInternal d i l) = intValue env mono d + modsValue env mono l := by
+  unfold intValue intMods addInternal
+  cases d with
+  | none => simp [modsValue, sumR_nil]
+  | some d => simp only [Option.getD_some]; exact intMods_addAt d i l env mono
+
+theorem mem_addAt (d : List (Int × List Mod)) (i : Int) (l : List Mod) (m : Mod)
+    (h : m ∈ (addAt d i l).flatMap (·.2)) : m ∈ d.flatMap (·.2) ∨ m ∈ l := by
+  induction d with
+  | nil => simpa [addAt] using h
+  | cons p d ih =>
+    obtain ⟨k, v⟩ := p
+    unfold addAt at h
+    by_cases hk : k = i
+    · simp only [hk, if_true, List.flatMap_cons, List.mem_append] at h ⊢; tauto
+    · simp only [hk, if_false, List.flatMap_cons, List.mem_append] at h ⊢
+      rcases h with h | h
+      · exact Or.inl (Or.inl h)
+      · rcases ih h with h | h
+        · exact Or.inl (Or.inr h)
+        · exact Or.inr h
+
+theorem mem_addInternal (d : Option (List (Int × List Mod))) (i : Int) (l : List Mod) (m : Mod)
+    (h : m ∈ intMods (addInternal d i l)) : m ∈ intMods d ∨ m ∈ l := by
+  unfold intMods addInternal at *
+  cases d with
+  | none => simpa using h
+  | some d => simp only [Option.getD_some] at h ⊢; exact mem_addAt d i l m h
+
+/-- what two annotations share when they differ only in their residue modifications -/
+def SameButInternal (a b : Annotation) : Prop :=
+  a.seq = b.seq ∧ a.isotope = b.isotope ∧ a.static = b.static ∧ a.labile = b.labile ∧ a.unknown = b.unknown ∧
+  a.nterm = b.nterm ∧ a.cterm = b.cterm ∧ a.intervals = b.intervals ∧ a.charge = b.charge ∧ a.adducts = b.adducts
+
+theorem condenseRule_props (env : Env) (mono : Bool) (a : Annotation) (p : List Char × List Mod) :
+    SameButInternal (condenseRule a p) a ∧
+    intValue env mono (condenseRule a p).internal = intValue env mono a.internal +
+      (if p.1 = nTerm || p.1 = cTerm then 0 else modsValue env mono p.2 * ((countSub p.1 a.seq : Nat) : Rat)) ∧
+    (∀ m ∈ intMods (condenseRule a p).internal, m ∈ intMods a.internal ∨ m ∈ p.2) := by
+  unfold condenseRule
+  by_cases hp : (p.1 = nTerm || p.1 = cTerm) = true
+  · simp only [hp, if_true]
+    exact ⟨⟨rfl, rfl, rfl, rfl, rfl, rfl, rfl, rfl, rfl, rfl⟩, by ring, fun m hm => Or.inl hm⟩
+  · simp only [hp, Bool.false_eq_true, if_false]
+    rw [← findAll_length]
+    generalize findAll p.1 a.seq = idx
+    induction idx generalizing a with
+    | nil => exact ⟨⟨rfl, rfl, rfl, rfl, rfl, rfl, rfl, rfl, rfl, rfl⟩, by simp, fun m hm => Or.inl hm⟩
+    | cons i idx ih =>
+      rw [List.foldl_cons]
+      obtain ⟨hs, hv, hm⟩ := ih { a with internal := addInternal a.internal (i : Int) p.2 }
+      refine ⟨hs, ?_, ?_⟩
+      · rw [hv, intValue_addInternal, List.length_cons]; push_cast; ring
+      · intro m hmm
+        rcases hm m hmm with h | h
+        · exact mem_addInternal a.internal i p.2 m h
+        · exact Or.inr h
+
+
+def mapMods (map : List (List Char × List Mod)) : List Mod := map.flatMap (·.2)
+
+/-- Σ over the residue-targeted rules: mods × number of matching residues -/
+def rulesValue (env : Env) (mono : Bool) (seq : List Char) (map : List (List Char × List Mod)) : Rat :=
+  sumR (map.map fun p => if p.1 = nTerm || p.1 = cTerm then 0 else modsValue env mono p.2 * ((countSub p.1 seq : Nat) : Rat))
+
+theorem foldl_condenseRule_props (env : Env) (mono : Bool) (map : List (List Char × List Mod)) (a : Annotation) :
+    SameButInternal (map.foldl condenseRule a) a ∧
+    intValue env mono (map.foldl condenseRule a).internal = intValue env mono a.internal + rulesValue env mono a.seq map ∧
+    (∀ m ∈ intMods (map.foldl condenseRule a).internal, m ∈ intMods a.internal ∨ m ∈ mapMods map) := by
+  induction map generalizing a with
+  | nil =>
+    exact ⟨⟨rfl, rfl, rfl, rfl, rfl, rfl, rfl, rfl, rfl, rfl⟩, by simp [rulesValue, sumR_nil], fun m hm => Or.inl hm⟩
+  | cons p map ih =>
+    rw [List.foldl_cons]
+    obtain ⟨hs1, hv1, hm1⟩ := condenseRule_props env mono a p
+    obtain ⟨hs2, hv2, hm2⟩ := ih (condenseRule a p)
+    obtain ⟨q1, q2, q3, q4, q5, q6, q7, q8, q9, q10⟩ := hs1
+    obtain ⟨r1, r2, r3, r4, r5, r6, r7, r8, r9, r10⟩ := hs2
+    refine ⟨⟨r1.trans q1, r2.trans q2, r3.trans q3, r4.trans q4, r5.trans q5, r6.trans q6, r7.trans q7, r8.trans q8,
+      r9.trans q9, r10.trans q10⟩, ?_, ?_⟩
+    · rw [hv2, hv1, q1]
+      unfold rulesValue
+      rw [List.map_cons, sumR_cons]
+      ring
+    · intro m hm
+      unfold mapMods
+      rw [List.flatMap_cons, List.mem_append]
+      rcases hm2 m hm with h | h
+      · rcases hm1 m h with h | h
+        · exact Or.inl h
+        · exact Or.inr (Or.inl h)
+      · exact Or.inr (Or.inr h)
+
+theorem getD_appendOpt (o : Option (List Mod)) (l : List Mod) : (appendOpt o l).getD [] = o.getD [] ++ l := by
+  cases o <;> rfl
+
+/-- the value of the global rules once parsed -/
+def mapValue (env : Env) (mono : Bool) (seq : List Char) (map : List (List Char × List Mod)) : Rat :=
+  (match map.lookup nTerm with | some l => modsValue env mono l | none => 0) +
+  (match map.lookup cTerm with | some l => modsValue env mono l | none => 0) + rulesValue env mono seq map
+
+theorem staticValue_eq (env : Env) (mono : Bool) (a : Annotation) (st : List Mod) (map : List (List Char × List Mod))
+    (hs : a.static = some st) (hp : env.parseStatic st = .ok map) :
+    staticValue env mono a = mapValue env mono a.seq map := by
+  unfold staticValue mapValue rulesValue
+  rw [hs]
+  simp only
+  rw [hp]
+  rfl
+
+theorem condenseWith_props (env : Env) (mono : Bool) (a : Annotation) (map : List (List Char × List Mod)) (ion : Key) :
+    (condenseWith a map).static = none ∧ (condenseWith a map).seq = a.seq ∧ (condenseWith a map).isotope = a.isotope ∧
+    (condenseWith a map).charge = a.charge ∧ (condenseWith a map).adducts = a.adducts ∧
+    modsValue env mono (placedMods (condenseWith a map) ion)
+      = modsValue env mono (placedMods a ion) + mapValue env mono a.seq map ∧
+    (∀ m ∈ writtenMods (condenseWith a map), m ∈ writtenMods a ∨ m ∈ mapMods map) := by
+  -- the annotation before the residue rules are folded in
+  have key : ∀ (a2 : Annotation) (ln lc : List Mod), a2.seq = a.seq → a2.isotope = a.isotope → a2.static = none →
+      a2.labile = a.labile → a2.unknown = a.unknown → a2.intervals = a.intervals → a2.charge = a.charge →
+      a2.adducts = a.adducts → a2.internal = a.internal →
+      a2.nterm.getD [] = a.nterm.getD [] ++ ln → a2.cterm.getD [] = a.cterm.getD [] ++ lc →
+      (∀ m ∈ ln, m ∈ mapMods map) → (∀ m ∈ lc, m ∈ mapMods map) →
+      (map.foldl condenseRule a2).static = none ∧ (map.foldl condenseRule a2).seq = a.seq ∧
+      (map.foldl condenseRule a2).isotope = a.isotope ∧ (map.foldl condenseRule a2).charge = a.charge ∧
+      (map.foldl condenseRule a2).adducts = a.adducts ∧
+      modsValue env mono (placedMods (map.foldl condenseRule a2) ion)
+        = modsValue env mono (placedMods a ion) + (modsValue env mono ln + modsValue env mono lc + rulesValue env mono a.seq map) ∧
+      (∀ m ∈ writtenMods (map.foldl condenseRule a2), m ∈ writtenMods a ∨ m ∈ mapMods map) := by
+    intro a2 ln lc e1 e2 e3 e4 e5 e6 e7 e8 e9 en ec hln hlc
+    obtain ⟨⟨s1, s2, s3, s4, s5, s6, s7, s8, s9, s10⟩, hv, hm⟩ := foldl_condenseRule_props env mono map a2
+    refine ⟨s3.trans e3, s1.trans e1, s2.trans e2, s9.trans e7, s10.trans e8, ?_, ?_⟩
+    · have hint : modsValue env mono (intMods (map.foldl condenseRule a2).internal)
+          = modsValue env mono (intMods a.internal) + rulesValue env mono a.seq map := by
+        have := hv; unfold intValue at this; rw [this, e9, e1]
+      rw [placedMods_eq, placedMods_eq, s4, s5, s6, s7, s8, e4, e5, e6, en, ec]
+      simp only [modsValue_append, hint]
+      ring
+    · intro m hmm
+      unfold writtenMods at hmm ⊢
+      rw [s4, s5, s6, s7, s8, e4, e5, e6, en, ec] at hmm
+      simp only [List.mem_append] at hmm ⊢
+      rcases hmm with ((((( h | h) | h) | h) | h) | h)
+      · tauto
+      · tauto
+      · rcases h with h | h
+        · tauto
+        · exact Or.inr (hln m h)
+      · rcases h with h | h
+        · tauto
+        · exact Or.inr (hlc m h)
+      · tauto
+      · rcases hm m h with h | h
+        · rw [e9] at h; tauto
+        · exact Or.inr h
+  unfold condenseWith mapValue
+  have lookMem : ∀ key l, map.lookup key = some l → ∀ m ∈ l, m ∈ mapMods map := by
+    intro key l hl m hm
+    obtain ⟨k', hk⟩ := list_lookup_mem key map l hl
+    exact List.mem_flatMap.mpr ⟨(k', l), hk, hm⟩
+  cases hN : map.lookup nTerm with
+  | none =>
+    cases hC : map.lookup cTerm with
+    | none =>
+      have := key { a with static := none } [] [] rfl rfl rfl rfl rfl rfl rfl rfl rfl (by simp) (by simp)
+        (by simp) (by simp)
+      simpa [modsValue, sumR_nil] using this
+    | some lc =>
+      have := key { a with static := none, cterm := appendOpt a.cterm lc } [] lc rfl rfl rfl rfl rfl rfl rfl rfl rfl
+        (by simp) (getD_appendOpt _ _) (by simp) (lookMem cTerm lc hC)
+      simpa [modsValue, sumR_nil] using this
+  | some ln =>
+    cases hC : map.lookup cTerm with
+    | none =>
+      have := key { a with static := none, nterm := appendOpt a.nterm ln } ln [] rfl rfl rfl rfl rfl rfl rfl rfl rfl
+        (getD_appendOpt _ _) (by simp) (lookMem nTerm ln hN) (by simp)
+      simpa [modsValue, sumR_nil] using this
+    | some lc =>
+      have := key { a with static := none, nterm := appendOpt a.nterm ln, cterm := appendOpt a.cterm lc } ln lc
+        rfl rfl rfl rfl rfl rfl rfl rfl rfl (getD_appendOpt _ _) (getD_appendOpt _ _) (lookMem nTerm ln hN)
+        (lookMem cTerm lc hC)
+      simpa using this
+
+
+theorem fastMass_lib_static (env : Env) (a : Annotation) (o : Opts) (st : List Mod) (map : List (List Char × List Mod))
+    (hs : a.static = some st) (hp : env.parseStatic st = .ok map) (hmr : mapResolves env o.mono map = true)
+    (hl : o.isotopeMods = none) (hl' : a.isotope = none)
+    (had : o.adducts = none) (had' : a.adducts = none) (hprec : o.precision = none)
+    (hres : KnownResidues a.seq) (hpl : (placedMods a o.ion).all (modResolves env o.mono) = true)
+    (fa : Rat) (hfa : fragmentAdjMass o.mono o.ion = some fa)
+    (ct : Rat) (hct : Mass.chargeTerm ((effCharge a o).getD 0) o.ion o.mono none = .ok ct) :
+    mass env a o = .ok (resSum o.mono a.seq + (mapValue env o.mono a.seq map + modsValue env o.mono (placedMods a o.ion))
+      + ct + fa + ((o.isotope : Rat) * Gen.neutronMass + o.loss)) := by
+  obtain ⟨hB, hZ⟩ := noBZ a.seq hres
+  unfold mass massWith resolveArgs effLabels
+  rw [hl, hl', had, had']
+  simp only [pure_bind', hB, hZ, Bool.false_eq_true, if_false]
+  unfold fastMass
+  have hstat : (match a.static with
+      | none => true
+      | some st => match env.parseStatic st with
+        | .error _ => false
+        | .ok map => mapResolves env o.mono map) = true := by rw [hs]; simp only; rw [hp]; exact hmr
+  rw [staticMass_ok env o.mono a hstat, bind_ok, residueMass_lib o.mono a.seq hres, bind_ok,
+    placedModsMass_ok env o.mono a o.ion hpl, bind_ok, staticValue_eq env o.mono a st map hs hp]
+  unfold adjustMass
+  dsimp only
+  rw [hct, bind_ok, hfa, hprec]
+  show Except.ok _ = Except.ok _
+  apply congrArg Except.ok
+  simp only [roundOpt]
+  ring
+
+theorem mass_eq_compMass_static_of_tables (hI : ionTablesOk = true) (env : Env) (a : Annotation) (o : Opts)
+    (st : List Mod) (map : List (List Char × List Mod)) (hs : a.static = some st) (hp : env.parseStatic st = .ok map)
+    (hl : o.isotopeMods = none) (hl' : a.isotope = none)
+    (had : o.adducts = none) (had' : a.adducts = none) (hprec : o.precision = none)
+    (hres : KnownResidues a.seq) (hcons : AllConsistent env o.mono (writtenMods a ++ mapMods map))
+    (hadj : (lookup o.ion neutralAdj).isSome = true)
+    (hion : o.ion = ionP ∨ o.ion = ionN ∨ (lookup o.ion Gen.ionComp).isSome = true) :
+    ∃ c d, compMass env a o.ion o.charge o.isotope none none o.useIsotopeOnMods = .ok (c, d) ∧
+      mass env a o = .ok (chemMassL (μ o.mono) c + d + o.loss
+        + kProtons a o * (Gen.protonMass - hplus o.mono)) := by
+  obtain ⟨adj, hadj⟩ := Option.isSome_iff_exists.mp hadj
+  obtain ⟨f1, f2, f3, f4, f5, f6, f7⟩ := override_fields a o.charge
+  obtain ⟨g1, g2, g3, g4, g5, g6, g7⟩ :=
+    condenseWith_props env o.mono (overrideArgs a o.charge none none) map o.ion
+  have hfa : fragmentAdjMass o.mono o.ion = some (constMass o.mono adj) :=
+    congrArg (Option.map (constMass o.mono)) hadj
+  have hconsA : AllConsistent env o.mono (writtenMods a) := fun m hm => hcons m (List.mem_append_left _ hm)
+  have hconsM : AllConsistent env o.mono (mapMods map) := fun m hm => hcons m (List.mem_append_right _ hm)
+  have hpl : (placedMods a o.ion).all (modResolves env o.mono) = true := by
+    apply consistent_resolves
+    intro m hm
+    apply hconsA
+    rw [placedMods_eq] at hm
+    unfold writtenMods
+    by_cases hp : o.ion = ionP
+    · simp only [hp, if_true, List.mem_append] at hm ⊢; tauto
+    · simp only [hp, if_false, List.nil_append, List.mem_append] at hm ⊢; tauto
+  have hmr : mapResolves env o.mono map = true := by
+    unfold mapResolves
+    rw [List.all_eq_true]
+    intro p hpm
+    apply consistent_resolves
+    intro m hm
+    exact hconsM m (List.mem_flatMap.mpr ⟨p, hpm, hm⟩)
+  have hconsC : AllConsistent env o.mono (writtenMods (condenseWith (overrideArgs a o.charge none none) map)) := by
+    intro m hm
+    rcases g7 m hm with h | h
+    · exact hconsA m (f5 ▸ h)
+    · exact hconsM m h
+  have hz : (condenseWith (overrideArgs a o.charge none none) map).charge.getD 0 = (effCharge a o).getD 0 := by
+    rw [g4, f7]; rfl
+  have hcore : compMassCore env (overrideArgs a o.charge none none) o.ion o.isotope o.useIsotopeOnMods
+      = compMassCore env (condenseWith (overrideArgs a o.charge none none) map) o.ion o.isotope o.useIsotopeOnMods := by
+    unfold compMassCore condenseStatic
+    rw [f1, hs, g1]
+    simp only [hp, bind_ok, pure_bind']
+  rw [compMass_eq_core, hcore]
+  rw [f4] at g6
+  by_cases hpn : (o.ion = ionP || o.ion = ionN) = true
+  · have hsb := seqBase_pn o.mono (condenseWith (overrideArgs a o.charge none none) map) o.ion
+      ((g2.trans f4) ▸ hres) ((g5.trans f3).trans had') adj hadj hpn
+    obtain ⟨c, d, hcd, hm⟩ := compMassCore_ok env o.mono (condenseWith (overrideArgs a o.charge none none) map) o.ion
+      o.isotope o.useIsotopeOnMods g1 ((g3.trans f2).trans hl') ((g5.trans f3).trans had') ((g2.trans f4) ▸ hres) hconsC
+      (by simp only [Bool.or_eq_true, decide_eq_true_eq] at hpn; tauto) _ hsb
+    refine ⟨c, d, hcd, ?_⟩
+    have hct : Mass.chargeTerm ((effCharge a o).getD 0) o.ion o.mono none
+        = .ok (Gen.protonMass * (((effCharge a o).getD 0 : Int) : Rat)) := by
+      unfold Mass.chargeTerm; simp only [hpn, if_true]; rfl
+    rw [fastMass_lib_static env a o st map hs hp hmr hl hl' had had' hprec hres hpl _ hfa _ hct]
+    apply congrArg Except.ok
+    unfold kProtons
+    simp only [hpn, if_true]
+    rw [g6, f6, g2, f4, hz] at hm
+    linarith
+  · have hpn' : (o.ion = ionP || o.ion = ionN) = false := by simpa using hpn
+    have hic : (lookup o.ion Gen.ionComp).isSome = true := by
+      rcases hion with h | h | h
+      · rw [h] at hpn; simp at hpn
+      · rw [h] at hpn; simp at hpn
+      · exact h
+    obtain ⟨ic, hic⟩ := Option.isSome_iff_exists.mp hic
+    have hn : o.ion ≠ ionN := by intro h; rw [h] at hpn; simp at hpn
+    obtain ⟨s, base, hsx, _, _⟩ := baseAdducts_of_tables hI o.ion ic hic hn
+    have hsb := seqBase_frag hI o.mono (condenseWith (overrideArgs a o.charge none none) map) o.ion
+      ((g2.trans f4) ▸ hres) ((g5.trans f3).trans had') adj hadj hpn' ic hic
+    obtain ⟨c, d, hcd, hm⟩ := compMassCore_ok env o.mono (condenseWith (overrideArgs a o.charge none none) map) o.ion
+      o.isotope o.useIsotopeOnMods g1 ((g3.trans f2).trans hl') ((g5.trans f3).trans had') ((g2.trans f4) ▸ hres) hconsC
+      (Or.inr (Or.inr (by rw [hsx]; rfl))) _ hsb
+    refine ⟨c, d, hcd, ?_⟩
+    have hfi : fragmentIonAdjMass o.mono o.ion = some (constMass o.mono ic) :=
+      congrArg (Option.map (constMass o.mono)) hic
+    have hct : Mass.chargeTerm ((effCharge a o).getD 0) o.ion o.mono none
+        = .ok (Gen.protonMass * ((((effCharge a o).getD 0 : Int) : Rat) - 1) + constMass o.mono ic) := by
+      unfold Mass.chargeTerm; simp only [hpn', Bool.false_eq_true, if_false]; rw [hfi]; rfl
+    rw [fastMass_lib_static env a o st map hs hp hmr hl hl' had had' hprec hres hpl _ hfa _ hct]
+    apply congrArg Except.ok
+    unfold kProtons
+    simp only [hpn', Bool.false_eq_true, if_false]
+    rw [g6, f6, g2, f4, hz] at hm
+    linarith
+
 end CompCalc
 end Pept
